@@ -1267,6 +1267,32 @@ func (c *Ctx) ruleU(rule string, f *ssa.Function) int {
 				w = append(w, fmt.Sprintf("accepting return at %s inside the body of the loop at %s: only a prefix of the elements is validated", c.pos(instrPos(r)), c.pos(firstPos(l.header))))
 			}
 		}
+		// … and a loop that turns elements away (an error return in its body) looks at every element: leaving it early
+		// from inside the body (break) accepts the elements that follow unseen
+		rejects := false
+		for _, b := range f.Blocks {
+			if l.insideBody(b) && !post[b] {
+				if r, ok := b.Instrs[len(b.Instrs)-1].(*ssa.Return); ok && !maySucceed(r) {
+					rejects = true
+				}
+			}
+		}
+		if rejects {
+			for b := range l.blocks {
+				if b == l.header {
+					continue
+				}
+				for _, s := range b.Succs {
+					if !l.blocks[s] && post[s] {
+						if _, isRet := s.Instrs[len(s.Instrs)-1].(*ssa.Return); isRet && len(s.Instrs) == 1 && !maySucceedRet(s) {
+							continue
+						}
+						okLoop = false
+						w = append(w, fmt.Sprintf("the loop at %s is left from inside its body at %s: the elements that follow are accepted unseen", c.pos(firstPos(l.header)), c.pos(firstPos(b))))
+					}
+				}
+			}
+		}
 		c.Check(rule, fmt.Sprintf("%s:loop%d", short(f.String()), li), okLoop, firstPos(l.header), fmt.Sprintf("for-all loop in %s rejects-only inside its body", short(f.String())), w...)
 	}
 	return n
@@ -2155,4 +2181,9 @@ func (c *Ctx) lookupAccessorErr(cl *ssa.Call) (*ssa.Lookup, *ssa.Function) {
 	}
 	c.lookupAccMemo[g] = lk
 	return lk, g
+}
+
+func maySucceedRet(b *ssa.BasicBlock) bool {
+	r, ok := b.Instrs[len(b.Instrs)-1].(*ssa.Return)
+	return ok && maySucceed(r)
 }
